@@ -32,6 +32,8 @@ class SimFuture:
     # -- concurrent.futures API -------------------------------------------
     def done(self):
         self.pool.stats["done_polls"] += 1
+        if self.state == "done":
+            self.pool._unobserved.discard(self.idx)
         return self.state in ("done", "cancelled")
 
     def cancelled(self):
@@ -101,13 +103,16 @@ class SimPool:
     """
 
     def __init__(self, clock, workers=2, mode="thread", rng=None,
-                 durations=None, speed=None):
+                 durations=None, speed=None, grid=None):
         self.clock = clock
         self._max_workers = int(workers)
         self.mode = mode
         self.rng = rng
         self.durations = list(durations) if durations is not None else None
         self.speed = list(speed) if speed else [1.0] * self._max_workers
+        # grid: durations are multiples of this quantum, so that several
+        # tasks finish at the same simulated instant (ties)
+        self.grid = grid
         self._free = list(range(self._max_workers))
         self._queue = []
         self._n = 0
@@ -117,8 +122,9 @@ class SimPool:
         self.stats = {
             "submitted": 0, "completed": 0, "cancelled": 0,
             "cancel_refused": 0, "out_of_order": 0, "max_inflight": 0,
-            "done_polls": 0, "raised": 0,
+            "done_polls": 0, "raised": 0, "batched": 0,
         }
+        self._unobserved = set()
 
     # -- API seen by cotengra ----------------------------------------------
     def submit(self, fn, *args, **kwargs):
@@ -143,6 +149,8 @@ class SimPool:
     def _draw_duration(self, idx):
         if self.durations is not None and idx < len(self.durations):
             d = float(self.durations[idx])
+        elif self.rng is not None and self.grid:
+            d = self.grid * self.rng.randint(0, 3)
         elif self.rng is not None:
             d = 10.0 ** self.rng.uniform(-3.0, 0.0)
         else:
@@ -178,6 +186,10 @@ class SimPool:
             fut._exc = e
             self.stats["raised"] += 1
         fut.state = "done"
+        if self._unobserved:
+            # another finished task has not been seen by the poller yet
+            self.stats["batched"] += 1
+        self._unobserved.add(fut.idx)
         self.stats["completed"] += 1
         if self.completion_order and fut.idx < max(self.completion_order):
             self.stats["out_of_order"] += 1
